@@ -89,6 +89,18 @@ def gen_case(rng, tier):
     d = rng.choice([1, 2, 3]) if tier == "quick" else rng.choice([2, 3, 4])
     k = rng.choice([1, 2, 2, 3])
     cols = COLS[:k]
+    if rng.random() < 0.12:
+        # several membership tests in one statement (literal and mixed sequences, ranges)
+        tests = []
+        for _ in range(rng.randint(2, 3)):
+            c = rng.choice(cols)
+            if rng.random() < 0.7:
+                tests.append(["inseq", ["ref", c], [["lit", rng.randint(-3, 3)] for _ in range(rng.randint(1, 3))], rng.choice(["list", "tuple"])])
+            else:
+                tests.append(["inrange", ["ref", c], exprs.gen_range(rng, True)])
+        if rng.random() < 0.4:
+            tests[-1] = ["not", tests[-1]]
+        return {"kind": "pred", "ast": [rng.choice(["and", "or"]), tests, rng.choice(["ctor", "factory"])], "k": k}
     if rng.random() < 0.3:
         return {"kind": "expr", "ast": exprs.gen_e(rng, cols, d), "k": k}
     return {"kind": "pred", "ast": exprs.gen_p(rng, cols, d, wild_ranges=rng.random() < 0.7), "k": k}
